@@ -639,7 +639,21 @@ def code_uses(repo, chk, oid):
                         # the statement), the same under every relabelling within that domain
                         if len(others) == 1 and isinstance(others[0], ast.Constant) and others[0].value == 0 and not isinstance(others[0].value, bool):
                             continue
-                        chk.bad(oid, 'use-restriction', site, ast.unparse(p)[:100], 'ordering comparison on category codes: an order-reversing relabelling changes its outcome')
+                        # an ordering of codes that SELECTS rows / counts them (a mask, np.where, count_nonzero) makes the result depend on the labelling for sure;
+                        # one that only steers a search / sort over the table of distinct values (binary search, merge) need not: the slot found is the slot of
+                        # the equal value whatever the order - not decided here
+                        anc, q_ = [], p
+                        while q_ in par and not isinstance(q_, ast.stmt):
+                            q_ = par[q_]
+                            anc.append(q_)
+                        selects = any((isinstance(a_, ast.Call) and (m.dotted(a_.func) or '').split('.')[-1] in ('where', 'count_nonzero', 'sum', 'nonzero', 'flatnonzero', 'argwhere', 'extract', 'compress', 'select'))
+                                      or isinstance(a_, ast.Subscript) for a_ in anc)
+                        in_search = isinstance(anc[-1] if anc else None, (ast.While, ast.If)) and any(isinstance(w_, ast.While) for w_ in _enclosing(par, p))
+                        if selects or not in_search:
+                            chk.bad(oid, 'use-restriction', site, ast.unparse(p)[:100], 'ordering comparison on category codes: an order-reversing relabelling changes its outcome')
+                        else:
+                            chk.unsure(oid, 'use-restriction', site, ast.unparse(p)[:100], 'an ordering comparison of category codes steers a search loop (while ...): whether what the loop finds is the same under every '
+                                       'relabelling (as it is for a binary search of a value in the sorted table of distinct values) is not decided')
                 elif isinstance(p, ast.Call):
                     d = m.dotted(p.func) or ''
                     if d in ('hash',) or d.startswith('xxhash') or d.endswith('.hash'):
@@ -671,6 +685,16 @@ def code_uses(repo, chk, oid):
     if not any(o.oid == oid and o.status == 'violated' for o in chk.obs):
         chk.ok(oid, 'use-restriction', m.relpath, f'{n_uses} uses of code-valued names in {len(CODE_PARAMS)} kernel functions', 'codes are touched only through ==/!=, the histogram and positional operations', inspected=n_uses)
     chk.require_count('uses of code-valued names in the kernel', n_uses, 15)
+
+
+def _enclosing(par, n):
+    """the statements that enclose n, innermost first"""
+    out = []
+    while n in par:
+        n = par[n]
+        if isinstance(n, ast.stmt):
+            out.append(n)
+    return out
 
 
 def _sizes_or_indexes(node, par, m, depth=0):
